@@ -389,7 +389,7 @@ func (e *Engine) visitInstr(fr *frame, instr ssa.Instruction) continuation {
 	case *ssa.Extract:
 		fr.set(instr, fr.get(instr.Tuple).(Tuple)[instr.Index])
 	case *ssa.Slice:
-		fr.set(instr, e.slice(instr, fr.get(instr.X), fr.get(instr.Low), fr.get(instr.High), fr.get(instr.Max)))
+		fr.set(instr, e.slice(instr, fr.get(instr.X), e.bound64(fr, instr.Low), e.bound64(fr, instr.High), e.bound64(fr, instr.Max)))
 	case *ssa.Return:
 		switch len(instr.Results) {
 		case 0:
@@ -480,7 +480,7 @@ func (e *Engine) visitInstr(fr *frame, instr ssa.Instruction) continuation {
 		x := fr.get(instr.X)
 		switch x := x.(type) {
 		case Slice:
-			idx := fr.get(instr.Index).(*Term)
+			idx := e.idx64(fr.get(instr.Index), instr.Index.Type())
 			if !idx.IsConst() && onlyLoaded(instr) {
 				fr.set(instr, e.symElem([]Value(x), idx))
 				break
@@ -492,7 +492,7 @@ func (e *Engine) visitInstr(fr *frame, instr ssa.Instruction) continuation {
 				e.goPanicStr("runtime error: invalid memory address or nil pointer dereference")
 			}
 			a := (*x).(Array)
-			idx := fr.get(instr.Index).(*Term)
+			idx := e.idx64(fr.get(instr.Index), instr.Index.Type())
 			if !idx.IsConst() && onlyLoaded(instr) {
 				fr.set(instr, e.symElem([]Value(a), idx))
 				break
@@ -504,7 +504,7 @@ func (e *Engine) visitInstr(fr *frame, instr ssa.Instruction) continuation {
 		}
 	case *ssa.Index:
 		x := fr.get(instr.X)
-		idx := fr.get(instr.Index).(*Term)
+		idx := e.idx64(fr.get(instr.Index), instr.Index.Type())
 		switch x := x.(type) {
 		case Array:
 			fr.set(instr, e.indexArray(x, idx))
@@ -611,6 +611,25 @@ func (e *Engine) indexCheck(idx *Term, n int) int {
 		e.goPanicStr(fmt.Sprintf("runtime error: index out of range [symbolic] with length %d", n))
 	}
 	return int(e.concretize(i64))
+}
+
+// idx64 converts an index operand to a 64-bit term according to its type.
+func (e *Engine) idx64(v Value, t types.Type) *Term {
+	x := v.(*Term)
+	if x.w == 64 {
+		return x
+	}
+	if _, signed, _ := intWidth(t); signed {
+		return e.ts.SExt(x, 64)
+	}
+	return e.ts.ZExt(x, 64)
+}
+
+func (e *Engine) bound64(fr *frame, v ssa.Value) Value {
+	if v == nil {
+		return nil
+	}
+	return e.idx64(fr.get(v), v.Type())
 }
 
 // widen sign-extends an index term to 64 bits (indices are ints; smaller
